@@ -13,5 +13,5 @@ def _oracle(S, b, trace):
     return out
 
 
-K = Kit("C06", _oracle, streams=(("structured", 0.5), ("contention", 0.5)))
+K = Kit("C06", _oracle, streams=(("structured", 0.42), ("contention", 0.42), ("pairs", 0.16)))
 eval_case, run, replay = K.eval_case, K.run, K.replay
